@@ -245,6 +245,7 @@ struct Agg {
     sm: TraceWriter,
     cr: TraceWriter,
     mm_written: usize,
+    mm_kinds: BTreeMap<String, u32>,
 }
 
 impl Agg {
@@ -269,7 +270,14 @@ impl Agg {
                 for d in &diffs {
                     *self.mismatch_fields.entry(d.clone()).or_default() += 1;
                 }
-                if self.mm_written < self.cfg.max_mismatch_traces {
+                // every KIND of deviation reaches the monitor: up to 25 executions per (operation, entry point, deviating fields,
+                // expected -> observed outcome), within a generous overall budget - a flood of one harmless kind must not
+                // crowd out a rare violating one
+                let got_cls = r["recs"].as_array().and_then(|a| a.last()).map(|x| x["c"]["cls"].as_str().unwrap_or("").to_string()).unwrap_or_default();
+                let key = format!("{}|{}|{}|{}->{}", reply["op"].as_str().unwrap_or("?"), e, diffs.join(","), r["exp_c"]["cls"].as_str().unwrap_or(""), got_cls);
+                let seen = self.mm_kinds.entry(key).or_default();
+                *seen += 1;
+                if *seen <= 25 && self.mm_written < self.cfg.max_mismatch_traces {
                     self.mm_written += 1;
                     self.mm.init(self.nh, self.maxbufs, &self.statics, &json!({"edge":edge_no,"variant":e,"diffs":diffs,"expected_o":v["o"],"expected_c":r["exp_c"]}));
                     for rec in r["recs"].as_array().unwrap() {
@@ -407,6 +415,7 @@ pub fn run(cfg: Cfg) -> i32 {
         wanted_samples: vec![],
         crashes: vec![],
         mm_written: 0,
+        mm_kinds: BTreeMap::new(),
     };
     let mut tlc_tail: Vec<String> = vec![];
     let mut failing_lines: Vec<String> = vec![];
